@@ -1,6 +1,7 @@
 (* C15 -- sampling only ever appends correct rows. *)
 From XV Require Import Prelude Grid Perm Runner Flow Label GenRunner BridgeRunner Harvest HarvestFlow GenHarvest BridgeHarvest LabelFlow GenLabel BridgeLabel
      GridProofs PermProofs RunnerProofs LabelProofs HarvestProofs HarvestFlowProofs.
+From XV Require Farmer GenFarmer BridgeFarmer.
 Open Scope Z_scope.
 
 (* every synced sampling run appends exactly its rows to the table on disk and changes no
@@ -57,6 +58,13 @@ Example C15_example :
   s_file s2 = Some [[1; 10]; [2; 20]; [3; 30]] /\ s_mem s2 = s_file s2.
 Proof. vm_compute. split; reflexivity. Qed.
 
+(* the direct routes Runner.run_combos / run_cases hand the runner's description and the caller's fn_args
+   (which win over the runner's own) to the builders; cases are parsed against that order (GenFarmer) *)
+Theorem C15_direct_route_wiring :
+  GenFarmer.gen_run_cases_call = Farmer.model_run_combos_call /\ GenFarmer.gen_run_combos_call = Farmer.model_run_combos_call.
+Proof. exact (conj BridgeFarmer.bridge_run_cases BridgeFarmer.bridge_run_combos). Qed.
+
+Print Assumptions C15_direct_route_wiring.
 Print Assumptions C15_append_only.
 Print Assumptions C15_new_session_continues.
 Print Assumptions C15_stale_memory_reloaded.
